@@ -467,3 +467,8 @@ def check(run, prog, tier):
     # ---- C01-e optional / multi-typed efun arguments
     import rules.C01e as c01e
     c01e.check(run, prog, tier, callgraph.CallGraph(prog))
+
+    # ---- C01-j a copied function pointer owns what its deallocation releases (shared with C06-e)
+    import rules.C06 as c06
+    run.rule("C01-j", "use after free through function pointers: " + c06.FUNPTR_COPY_DESC, 1)
+    c06.funptr_copy_rule(run, prog, "C01-j")
